@@ -508,7 +508,9 @@ class StabilizerCode(metaclass=ABCMeta):
         else:
             rows, cols = bsf_operator.nonzero()
 
-        for col in cols:
+        # X columns must be visited before Z columns to recognise a Y, but
+        # sparse rows do not always store their indices in increasing order
+        for col in np.sort(cols):
             if col < self.n:
                 location = self.qubit_coordinates[col]
                 operator[location] = 'X'
